@@ -184,3 +184,67 @@ def run(ctx):
                            found_input=False)
     finally:
         shutil.rmtree(tmp, ignore_errors=True)
+    dataset_like_leg(ctx)
+
+
+KEYS = ['units', 'long_name', '_FillValue', 'missing_value', 'scale_factor', 'valid_min', 'coordinates', 'standard_name', 'dtype',
+        'chunksizes', 'add_offset', 'cell_methods']
+
+
+def dataset_like_leg(ctx):
+    """utils.dataset_like against Model.AttrMerge: the attributes and encodings of the variables of a dataset reassembled from
+    pieces, for every mixture of names held as attribute or encoding entry by the source and by the reassembled variable."""
+    import xarray
+    from emsarray import utils
+    from coqio import tup
+    rng = ctx.rng
+    n = 60 if ctx.tier == 'quick' else 600
+    exprs, plans = [], []
+
+    def random_dict(exclude=()):
+        keys = [k for k in rng.sample(KEYS, rng.randint(0, 5)) if k not in exclude]
+        return {k: rng.randint(1, 99) for k in keys}
+
+    def lit(dct):
+        return to_coq([tup(KEYS.index(k), v) for k, v in dct.items()])
+    for i in range(n):
+        s_attrs = random_dict()
+        s_enc = random_dict(exclude=s_attrs)
+        n_enc = random_dict()
+        # the reassembled variable usually brings a part of what the source had (read back from the files written from it), at
+        # times with names moved between attributes and encoding by the reader, at times with a value of its own
+        n_attrs = {k: (v if rng.random() < 0.7 else v + 100) for k, v in s_attrs.items() if rng.random() < 0.5 and k not in n_enc}
+        if rng.random() < 0.3:
+            n_attrs.update({k: v for k, v in random_dict(exclude=n_enc).items()})
+        sample = xarray.Dataset({'v': ('x', numpy.arange(3.0))}, coords={'c': ('x', numpy.arange(3.0))})
+        new = xarray.Dataset({'v': ('x', numpy.arange(3.0) + 1)}, coords={'c': ('x', numpy.arange(3.0))})
+        which = 'v' if i % 3 else 'c'
+        sample[which].attrs.update(s_attrs)
+        sample[which].encoding.update(s_enc)
+        new[which].attrs.update(n_attrs)
+        new[which].encoding.update(n_enc)
+        before = (dict(new[which].attrs), dict(new[which].encoding), dict(sample[which].attrs), dict(sample[which].encoding))
+        r = attempt(lambda: utils.dataset_like(sample, new))
+        case = {'variable': which, 'source attrs': s_attrs, 'source encoding': s_enc, 'reassembled attrs': n_attrs, 'reassembled encoding': n_enc}
+        ctx.count(f'dataset_like:overlap attrs/new encoding={bool(set(s_attrs) & set(n_enc))}')
+        ctx.case(('dataset_like', str(case)), bool(set(s_attrs) & set(n_enc)))
+        if r[0] != 'ok':
+            ctx.report('property', f'utils.dataset_like failed: {r[1]}', case)
+            continue
+        out = r[1][which]
+        got = ([(KEYS.index(k), int(v)) for k, v in out.attrs.items()], [(KEYS.index(k), int(v)) for k, v in out.encoding.items()])
+        # attributes pass through: every source attribute is there with its value unless the reassembled variable has the name
+        for k, v in s_attrs.items():
+            if k not in n_attrs and k not in n_enc and out.attrs.get(k) != v:
+                ctx.report('property', f'attribute {k}={v} of the source variable is {out.attrs.get(k)!r} on the reassembled dataset', case)
+        if (dict(sample[which].attrs), dict(sample[which].encoding)) != before[2:]:
+            ctx.report('property', 'utils.dataset_like changed the attributes / encoding of the sample dataset', case)
+        exprs.append(f'(like_var {lit(s_attrs)} {lit(s_enc)} {lit(n_attrs)} {lit(n_enc)})')
+        plans.append((case, got))
+    model = coq_eval_sharded(['Model.AttrMerge'], exprs, shard=30, workers=4)
+    ctx.leg('dataset_like_cases', len(exprs))
+    for (case, got), (m_attrs, m_enc) in zip(plans, model):
+        want = ([(int(a), int(b)) for a, b in m_attrs], [(int(a), int(b)) for a, b in m_enc])
+        if want != got:
+            ctx.report('correspondence', f'model AttrMerge.like_var (attributes, encoding) = {want}, utils.dataset_like {got} (names numbered '
+                       f'in {KEYS})', case, found_input=False)
